@@ -63,6 +63,8 @@ type Base struct {
 	CloseErr error
 	WriteMsg any
 	EventVal any
+	// Once: a Panic / CloseCh action is performed only the first time; afterwards the handler forwards.
+	Once bool
 	// Hook, when set, runs at the start of every invocation (harness-specific logging).
 	Hook func(kind int, ctx netty.HandlerContext, payload any)
 }
@@ -75,6 +77,9 @@ func (b *Base) visit(self netty.Handler, kind int, ctx netty.HandlerContext, pay
 		b.Rec.Visits = append(b.Rec.Visits, Visit{H: b, Kind: kind, Payload: payload, SelfOK: ctx.Handler() == self, Ctx: ctx})
 	}
 	a := b.Act[kind]
+	if b.Once && (a == Panic || a == CloseCh) {
+		b.Act[kind] = Forward
+	}
 	switch a {
 	case Panic:
 		panic(b.PanicVal)
